@@ -227,6 +227,22 @@ def run(rep, tier, rng):
                 texts.append(("numeric-specials", "(%s %s %s)" % (op, a, b)))
                 if op in ("max", "min", "+", "*", "=", "<") and rng.random() < 0.3:
                     texts.append(("numeric-specials", "(apply %s (list %s %s %s))" % (op, b, rng.choice(specials), a)))
+    # EVERY native procedure on every pair of argument KINDS (numbers of every exactness, not-a-number, booleans, characters, strings,
+    # symbols, the empty list, proper and improper lists, mutable and literal vectors, native and user procedures, the unspecified
+    # value), and on every single one: a value or a reported error
+    kinds = ["5", "-1", "1/2", "1.5", "(sqrt -1)", "#t", "#\\a", '"s"', "'sym", "'()", "'(1 2)", "'(1 . 2)", "(vector 1 2)", "#(1)", "car",
+             "(lambda (x) x)", "(if #f #f)"]
+    for op in sorted(P.BUILTIN_ARITY):
+        if op in ("display", "newline"):
+            continue                      # they write to the process's standard output
+        for a in kinds:
+            texts.append(("builtin-kinds", "(%s %s)" % (op, a)))
+            for b in kinds:
+                texts.append(("builtin-kinds", "(%s %s %s)" % (op, a, b)))
+    for a in kinds:
+        for b in ("0", "5", "-1", "'sym"):
+            texts.append(("builtin-kinds", "(vector-set! %s %s 9)" % (a, b)))
+            texts.append(("builtin-kinds", "(make-vector %s %s)" % (b, a)))
     n_soup = 3000 if tier == "quick" else 80000
     for _ in range(n_soup):
         texts.append(("soup", soup(rng, rng.randrange(1, 25))))
@@ -358,7 +374,7 @@ def main(tier, seed):
     rep = C.Report(PROP, tier, seed)
     rng = random.Random(seed)
     rep.cov["rule"] = ("every string of length 1-4 over a 20-character structural alphabet (exhaustive), every blank-separated sequence of 1-5 "
-                       "(thorough 6) tokens over ( ) . ' #( a 1 \"s\" (exhaustive), every numeric procedure on every pair of special operands (NaN, infinities, -0.0, i32 edges), random token soup over a "
+                       "(thorough 6) tokens over ( ) . ' #( a 1 \"s\" (exhaustive), every numeric procedure on every pair of special operands (NaN, infinities, -0.0, i32 edges), every native procedure on every single and every pair of 17 argument kinds, random token soup over a "
                        "100-token vocabulary (half with balanced parentheses), token-level mutations of generated programs and of the "
                        "bundled grammar.sld/base.sld, random Unicode/control strings, ill-formed program files; each followed by a "
                        "sanity form on the same interpreter; distinct non-trivial = inputs that are not a plain value of the "
